@@ -29,6 +29,7 @@ func c15Scenarios() [][]c15Step {
 		{{"est", 0, "198.18.0.10", 1, 3}, {"est", 1, "198.18.0.11", 2, 3}, {"est", 2, "198.18.0.12", 3, 3}, {"del", 1, "", 0, 0}, {"del", 0, "", 0, 0}, {"del", 2, "", 0, 0}},
 		{{"est", 0, "198.18.0.10", 1, 2}, {"mod", 0, "198.18.0.11", 0, 0}, {"mod", 0, "198.18.0.10", 0, 0}, {"del", 0, "", 0, 0}, {"est", 1, "198.18.0.10", 1, 2}, {"del", 1, "", 0, 0}},
 		{{"est", 0, "198.18.0.10", 1, 1}, {"est", 1, "198.18.0.10", 2, 1}, {"est", 2, "198.18.0.10", 1, 1}, {"del", 0, "", 0, 0}, {"del", 2, "", 0, 0}, {"del", 1, "", 0, 0}},
+		{{"est", 0, "198.18.0.10", 1, 2}, {"est", 1, "198.18.0.11", 2, 3}, {"upq", 0, "198.18.0.10", 1, 2}, {"upq", 1, "198.18.0.11", 2, 3}, {"est", 2, "198.18.0.12", 0, 1}, {"upq", 2, "198.18.0.12", 0, 1}, {"del", 0, "", 0, 0}, {"est", 3, "198.18.0.10", 1, 2}, {"del", 1, "", 0, 0}, {"del", 2, "", 0, 0}, {"del", 3, "", 0, 0}},
 		{{"est", 0, "198.18.0.10", 1, 1}, {"est", 1, "198.18.0.11", 2, 1}, {"upd", 0, "198.18.0.10", 1, 1}, {"upd", 1, "198.18.0.11", 2, 1}, {"est", 2, "198.18.0.12", 0, 0}, {"del", 0, "", 0, 0}, {"est", 3, "198.18.0.10", 1, 2}, {"del", 1, "", 0, 0}, {"del", 2, "", 0, 0}, {"del", 3, "", 0, 0}},
 	}
 }
@@ -346,6 +347,7 @@ func TestVerif_C15(t *testing.T) {
 		ups := map[int]uint64{}
 		seq := uint32(10)
 		var trace []string
+		var retryDel []int
 		// continue the scenario after the fault and recycle ids with two more sessions at the end
 		steps := append(append([]c15Step{}, sc...), c15Step{"est", 7, "198.18.0.13", 3, 3}, c15Step{"est", 8, "198.18.0.10", 1, 2}, c15Step{"del", 7, "", 0, 0}, c15Step{"del", 8, "", 0, 0})
 		for sti, st := range steps {
@@ -370,6 +372,15 @@ func TestVerif_C15(t *testing.T) {
 				}
 				e := c15Est(0, 100+si*16+st.sess, st)
 				raw = p.modify(vModSpec{Seq: seq, SEID: up, UpPDR: []vPDRSpec{e.PDRs[1]}})
+			case "upq":
+				// Update QER of the session's first QER (another rate): the meter cells stay the session's whatever happens
+				up, ok := ups[st.sess]
+				if !ok || st.nq == 0 {
+					continue
+				}
+				q := c15Est(0, 100+si*16+st.sess, st).QERs[0]
+				q.MBRUL, q.MBRDL = q.MBRUL+uint64(500+sti), q.MBRDL+uint64(700+sti)
+				raw = p.modify(vModSpec{Seq: seq, SEID: up, UpQER: []vQERSpec{q}})
 			case "del":
 				up, ok := ups[st.sess]
 				if !ok {
@@ -390,7 +401,7 @@ func TestVerif_C15(t *testing.T) {
 			w := map[string]interface{}{"scenario": si, "faults": fmt.Sprint(faults), "trace": append([]string{}, trace...)}
 			if faulted {
 				res.event("requests_with_injected_failure", 1)
-				if accepted && (st.kind == "est" || st.kind == "mod" || st.kind == "upd") {
+				if accepted && (st.kind == "est" || st.kind == "mod" || st.kind == "upd" || st.kind == "upq") {
 					res.violate("C15.R4", "accepted-despite-write-failure "+st.kind, fmt.Sprintf("a datapath write of this %s failed (write %v of the scenario) but the request was answered 'accepted'", st.kind, faults), w)
 				}
 			}
@@ -402,7 +413,23 @@ func TestVerif_C15(t *testing.T) {
 			case "del":
 				if accepted {
 					delete(ups, st.sess)
+				} else if faulted {
+					retryDel = append(retryDel, st.sess)
 				}
+			}
+			if st.kind == "est" && len(retryDel) > 0 {
+				// the control plane repeats a deletion that was refused, after somebody else has attached meanwhile
+				for _, sx := range retryDel {
+					if u, ok := ups[sx]; ok {
+						seq++
+						if dm := c01Request(p, p.deletion(seq, u), seq); dm != nil && vDecodeReply(dm).Cause == ie.CauseRequestAccepted {
+							delete(ups, sx)
+						}
+						trace = append(trace, fmt.Sprintf("step %d (repeated) del s%d", sti, sx))
+						res.event("refused_deletions_repeated", 1)
+					}
+				}
+				retryDel = nil
 			}
 			snap := a.p4.snapshot()
 			for _, x := range c15Exclusive(snap) {
